@@ -1228,7 +1228,11 @@ fn main() {
     for round in 0..40 {
         let file = match syn::parse_file(&text) {
             Ok(f) => f,
-            Err(e) => fail(&job.report, rep, format!("parse error after normalisation round {}: {}", round, e)),
+            Err(e) => {
+                std::fs::write(format!("{}.failed.rs", job.out), &text).ok();
+                let lc = e.span().start();
+                fail(&job.report, rep, format!("parse error after normalisation round {}: {} at line {} col {}", round, e, lc.line, lc.column))
+            }
         };
         let mut all: Vec<(String, Vec<Edit>)> = vec![];
         for it in &job.items {
